@@ -225,9 +225,13 @@ Definition activate (cfg : config) (a kind : nat) (id : list nat) (sel : nat) (s
                     | None => (s, RNil)              (* time-out *)
                     | Some nt =>
                         if decide (kind ∈ local_kinds nt) then
+                          match activated nt !! k with
+                          | Some _ => (s, RNil)        (* the asked member knows the id is taken (repair D26): Success: false *)
+                          | None =>
                           (send (bcast (members (ag na)) (MActivation k (host cfg (mid m))))
                                 (spawn_on (mid m) k s),
                            RPid (host cfg (mid m)) k)
+                          end
                         else (s, RNil)               (* Success: false *)
                     end
               end
